@@ -37,6 +37,10 @@ def filters():
       ("DenyList(['params','state'])", DenyList(['params', 'state']), lambda c: c not in ('params', 'state')),
       ("DenyList(DenyList('cache'))", DenyList(DenyList('cache')), lambda c: c == 'cache'),
       ("{'perturbations','state'}", {'perturbations', 'state'}, lambda c: c in ('perturbations', 'state')),
+      # names that contain another collection's name as a substring: membership is exact equality
+      ("'batch_stats'", 'batch_stats', lambda c: c == 'batch_stats'),
+      ("DenyList('batch_stats')", DenyList('batch_stats'), lambda c: c != 'batch_stats'),
+      ("'state_backup'", 'state_backup', lambda c: c == 'state_backup'),
   ]
 
 
@@ -123,7 +127,7 @@ def add_special_ops(rng, spec, what):
   node = spec['root']
   ops = list(node[2])
   if what == 'bad_write':
-    col = rng.choice(['state', 'cache', 'params', 'frozen_col'])
+    col = rng.choice(['state', 'cache', 'params', 'frozen_col', 'stats'])
     ops.insert(rng.randint(0, len(ops)), ('bad_write', col))
   elif what == 'leak':
     ops.insert(rng.randint(0, len(ops)), ('leak',))
@@ -152,7 +156,7 @@ def run_case(ctx, i, rng, log):
   from vf import snap
   from vf.gen import linen_prog as LP
 
-  spec = LP.gen_program(rng, max_nodes=6, depth=3)
+  spec = LP.gen_program(rng, max_nodes=6, depth=3, cols=['state', 'cache', 'stats', 'batch_stats'])
   special = rng.choice([None, None, None, 'bad_write', 'leak'])
   if special:
     spec = add_special_ops(rng, spec, special)
